@@ -49,6 +49,8 @@ def generate(seed, tier):
         # free-text keys whose values contain the separator a naive concatenation of key values would use
         fields = [{"name": "k%d" % index, "type": "Text", "length": "1{sep}4", "width": 4} for index in range(key_count)]
         alphabet = ["a", "a, b", "b, a"]
+        if fmt == "fixed":
+            alphabet.append(" a")  # differs from "a" as a key although both mean the same once blanks are dropped
     elif fmt == "delimited" and swarm.random() < 0.25:
         # key fields that may be empty: the empty value is a value like any other for both checks
         for field in fields:
@@ -71,7 +73,8 @@ def generate(seed, tier):
     table = []
     bad_rate = swarm.choice([0.0, 0.1, 0.25])
     for _ in range(rng.randint(0, 10 if tier == "quick" else 14)):
-        row = [rng.choice(alphabet) for _ in range(key_count)] + [rng.choice(["1", "2"])]
+        # the checks compare the texts of the row: "1" and "01" are two values
+        row = [rng.choice(alphabet) for _ in range(key_count)] + [rng.choice(["1", "2"] if fmt == "fixed" else ["1", "2", "01"])]
         if rng.random() < bad_rate:
             if fmt == "delimited" and rng.random() < 0.3:
                 row = row[:-1] if rng.random() < 0.5 else row + ["a"]
